@@ -48,6 +48,37 @@ func (C02) Generate(r *rand.Rand, tier string, idx int) *drv.Scenario {
 		k := baseKnobs(r)
 		return &drv.Scenario{Family: "gate-" + mode, Knobs: k, Steps: steps, Fixed: 2}
 	}
+	if idx%5 == 3 {
+		// resolve family: two committed branches that conflict on keys of one instance, resolved together with
+		// instances in which they do not conflict; the committed branch heads must read as before
+		steps = append(steps,
+			drv.Op{Op: "branch", V: 0, Br: "ra", N: 1}, drv.Op{Op: "branch", V: 0, Br: "rb", N: 2})
+		nk := 1 + r.IntN(3)
+		for i := 0; i < nk; i++ {
+			k := fmt.Sprintf("rk%d", i)
+			if r.IntN(4) != 0 {
+				steps = append(steps, drv.Op{Op: "c2rput", V: 1, K: k, Val: "a" + k})
+			}
+			steps = append(steps, drv.Op{Op: "c2rput", V: 2, K: k, Val: "b" + k})
+		}
+		if r.IntN(2) == 0 {
+			steps = append(steps, drv.Op{Op: "c2mut", V: 1 + r.IntN(2), N: int64(r.Uint64N(1 << 40))})
+		}
+		steps = append(steps, drv.Op{Op: "commit", V: 1}, drv.Op{Op: "commit", V: 2})
+		names := []string{"roi", "nj", "gray", "kvx"}
+		r.Shuffle(len(names), func(i, j int) { names[i], names[j] = names[j], names[i] })
+		data := append([]string(nil), names[:1+r.IntN(2)]...)
+		data = append(data, "kv")
+		if r.IntN(3) == 0 {
+			r.Shuffle(len(data), func(i, j int) { data[i], data[j] = data[j], data[i] })
+		}
+		ps := []int{1, 2}
+		if r.IntN(2) == 0 {
+			ps = []int{2, 1}
+		}
+		steps = append(steps, drv.Op{Op: "c2resolve", Ps: ps, N: 3, S: data}, drv.Op{Op: "c2check"})
+		return &drv.Scenario{Family: "resolve-" + mode, Knobs: baseKnobs(r), Steps: steps, Fixed: 2}
+	}
 	brc := 0
 	n := 8 + r.IntN(14)
 	for i := 0; i < n; i++ {
@@ -83,7 +114,14 @@ func (C02) Generate(r *rand.Rand, tier string, idx int) *drv.Scenario {
 			r.Shuffle(len(ps), func(i, j int) { ps[i], ps[j] = ps[j], ps[i] })
 			idx := d.NextIdx()
 			d.Add(idx, "", ps[:2], "", 0)
-			steps = append(steps, drv.Op{Op: "merge", Ps: ps[:2], N: int64(idx)})
+			if r.IntN(2) == 0 {
+				// resolve: conflicts of the listed instances are deleted in extension versions, never in the committed parents
+				names := []string{"kv", "roi", "nj", "gray", "kvx"}
+				r.Shuffle(len(names), func(i, j int) { names[i], names[j] = names[j], names[i] })
+				steps = append(steps, drv.Op{Op: "c2resolve", Ps: ps[:2], N: int64(idx), S: names[:2+r.IntN(2)]})
+			} else {
+				steps = append(steps, drv.Op{Op: "merge", Ps: ps[:2], N: int64(idx)})
+			}
 		case x < 89:
 			steps = append(steps, drv.Op{Op: "c2delinst", Mode: pick(r, []string{"settle", "nowait"})})
 		case x < 94:
@@ -240,6 +278,42 @@ func (c C02) Execute(sc *drv.Scenario, w *drv.World) (*drv.Violation, error) {
 			_, v, err = e.x.ApplyDAGOp(op)
 			if err == nil && v == nil {
 				v, err = e.verify("restart")
+			}
+		case "c2rput":
+			if e.x.D.Has(op.V) {
+				_, _, err = w.HTTP("POST", "/api/node/"+e.x.uuid(op.V)+"/kv/key/"+op.K, []byte(op.Val))
+			}
+		case "c2resolve":
+			var ps []string
+			for _, p := range op.Ps {
+				if e.x.D.Has(p) {
+					ps = append(ps, e.x.uuid(p))
+				}
+			}
+			if len(ps) < 2 || e.x.D.Has(int(op.N)) {
+				continue
+			}
+			var data []string
+			for _, n := range op.S {
+				if n != "kvx" || e.sacr {
+					data = append(data, n)
+				}
+			}
+			var st int
+			var rb []byte
+			st, rb, err = w.HTTP("POST", "/api/repo/"+ps[0]+"/resolve", jsonBody(map[string]interface{}{"data": data, "parents": ps, "note": "r"}))
+			if err == nil {
+				if st == 200 {
+					e.x.D.Add(int(op.N), childUUID(rb), op.Ps, "", e.x.D.Nodes[op.Ps[0]].Repo)
+					w.Stats.Probe("resolve-accepted")
+				} else {
+					w.Stats.Probe("resolve-refused")
+				}
+				if err = w.Barrier(); err == nil {
+					if v, err = e.verify("resolve"); v != nil {
+						v.Detail = fmt.Sprintf("POST /api/repo/%s/resolve data=%v parents=%v -> %d %s\n", ps[0], data, ps, st, trunc(rb)) + v.Detail
+					}
+				}
 			}
 		default:
 			_, v, err = e.x.ApplyDAGOp(op)
